@@ -77,6 +77,8 @@ class Engine(ExprMixin, StmtMixin, CallMixin, PrimMixin, NumpyMixin):
         if st.dead:
             return
         if goal is True:
+            self.obls.append(Obligation("%s/%s/%s" % (self.cur_func, kind, label), kind, self.cur_func, label, "proved",
+                                        "trivial", 0.0, getattr(node, "lineno", None), list(st.path)))
             return
         if goal is False:
             goal = z3.BoolVal(False)
@@ -327,7 +329,7 @@ def _verify_function(self, cname):
             from . import cfront
             mod, qual, node, cls = cfront.load_c_function(self.idx, c)
         else:
-            mod, qual, node, cls = self.idx.find(cname)
+            mod, qual, node, cls = self.idx.find(cname.split("#")[0])
         label_loops(node)
         node._labelled = True
         info["line"] = node.lineno
@@ -489,9 +491,11 @@ def _run_body(self, f, c, st, fr, info):
                     self.oblige(s, self.iter_equal(fr2.result, fr.gen["source_value"], s), "gen",
                                 "returns-iterator-over-the-source-items", node, fr)
             if "post" in c.checks:
+                # postconditions speak about the parameters (entry bindings; heap objects in their final state)
+                s.env = dict(fr.params)
                 for name, clause in c.ensures:
                     g = self.spec_eval(clause, s, fr2, c.name + ":" + name)
-                    self.oblige(s, g, "post", name, node, fr)
+                    self.oblige_no_assume(s, g, "post", name, node, fr)
         elif kind == "raise":
             info["raises"] += 1
             s.path.append("raise " + v.cls)
